@@ -182,7 +182,29 @@ pub fn aux_exercise_shape(h: HashId, shape: &[Level], aux_bytes: Vec<u8>, keygen
     let levels: Vec<Level> = shape.to_vec();
     let seed = gen::expand(0xc11, n);
     let pk = hss::public_key(&m, &levels, &seed);
-    let mut aux = AuxBuf::new(aux_bytes);
+    let mut aux = AuxBuf::new(aux_bytes.clone());
+    if !keygen {
+        // the in-memory key's way in takes the same buffer (its own copy)
+        let total: u64 = 1u64 << levels.iter().map(|l| l.1).sum::<u32>();
+        let blob = hss::private_key_blob(&levels, 37 % total, &seed);
+        let mut aux2 = AuxBuf::new(aux_bytes);
+        match libapi::sign_via_key(h, b"aux", &blob, KeyEntry::TrySign, Some(&mut aux2)) {
+            (Out::Panic(p), _) => return Err((format!("try_sign_with_aux-{}", panic_key(&p)), format!("SigningKey::try_sign_with_aux panics with {}: {}", what, p))),
+            (Out::Ok(sig), after) => {
+                if !libapi::verify(h, libapi::VerifyEntry::Function, b"aux", &sig, &pk).is_ok() {
+                    return Err(("released-invalid try_sign_with_aux".into(), format!("try_sign_with_aux with {} released a signature that does not verify", what)));
+                }
+                if after != hss::successor_blob(&m, &blob) {
+                    return Err(("key-object-successor".into(), format!("try_sign_with_aux with {} left the key object in a wrong state", what)));
+                }
+            }
+            (Out::Err, after) => {
+                if after.as_deref() != Some(&blob[..]) {
+                    return Err(("key-object-changed-on-error".into(), format!("try_sign_with_aux failed with {} but changed the key object", what)));
+                }
+            }
+        }
+    }
     if keygen {
         match libapi::keygen(h, &levels, &seed, Some(&mut aux)) {
             Out::Panic(p) => Err((format!("keygen-{}", panic_key(&p)), format!("keygen panics with {}: {}", what, p))),
